@@ -4,6 +4,7 @@ import (
 	"context"
 	"errors"
 	"fmt"
+	"net"
 	"sync"
 	"time"
 
@@ -120,6 +121,12 @@ func (r *run) waves(s *gocql.Session, pool *node.ServerConn, poolConn *gocql.Con
 		defer r.mu.Unlock()
 		return len(r.received) >= expect
 	})
+
+	if h.PushEvents {
+		// EVENT frames arrive on stream -1 between the responses: recv hands them to the session and goes on
+		pool.PushEvent(node.StatusChangeEvent{Change: "UP", IP: net.ParseIP("10.0.0.1"), Port: 9042})
+		pool.PushEvent(node.TopologyChangeEvent{Change: "NEW_NODE", IP: net.ParseIP("10.0.0.1"), Port: 9042})
+	}
 
 	// cancellations, the connection event and the release of the held answers, in a scripted order
 	closeDone := make(chan bool, 1)
